@@ -106,6 +106,39 @@ def dh_latest(c):
         c.ob(tag + 'sources-queried-at-dt-for-that-asset', AND(*[AND(EQ(q[2], dt), EQ(q[3], a)) for q in log]), props=['C07', 'C06'])
 
 
+@harness('BacktestDataHandler.stateless', props=['C06', 'C07', 'C18'], layer='L3',
+         functions=['BacktestDataHandler.__init__', 'BacktestDataHandler.get_asset_latest_bid_price', 'BacktestDataHandler.get_asset_latest_ask_price',
+                    'BacktestDataHandler.get_asset_latest_bid_ask_price', 'BacktestDataHandler.get_asset_latest_mid_price'])
+def dh_stateless(c):
+    """the handler is a function of (dt, asset): queries it has already answered - for any asset, at any instant EARLIER OR
+       LATER than dt (a handler shared between two sessions rewinds) - leave nothing behind"""
+    a, a0 = c.key('asset'), c.key('asset_of_an_earlier_query')
+    dt, t0 = c.time('dt'), c.time('time_of_an_earlier_query')
+    n = 2 if c.mode == 'sym' else int(c.real('number_of_sources', lambda r: float(r.choice([1, 2, 3]))))
+    log = []
+    dh = BacktestDataHandler(None, data_sources=[_Source(c, i, log) for i in range(n)])
+    if c.mode == 'sym':
+        for i in range(n):         # (the earlier query's sources do not raise: fewer paths; raising sources are the main harness)
+            c.assume(z3.Not(SRC_RAISES(z3.IntVal(i), lift(t0), liftk(a0))))
+    with heap._quiet():
+        dh.get_asset_latest_mid_price(t0, a0)
+        if c.mode == 'conc':
+            dh.get_asset_latest_ask_price(t0, a0)
+            dh.get_asset_latest_ask_price(t0, a)
+            dh.get_asset_latest_bid_price(t0, a)
+    del log[:]
+    for kind, F, N, get in (('bid', SRC_BID, SRC_NAN, dh.get_asset_latest_bid_price), ('ask', SRC_ASK, SRC_ANAN, dh.get_asset_latest_ask_price)):
+        got = get(dt, a)
+        want = _first_valid(c, n, F, N, dt, a)
+        if want is None:
+            c.ob(kind + '-after-earlier-queries-is-nan-when-no-source-answers', _isnan(got))
+        else:
+            c.ob(kind + '-after-earlier-queries-is-first-non-nan-source-answer', AND(NOT(_isnan(got)), EQ(got, want)))
+    c.ob('sources-queried-at-dt-for-that-asset', AND(len(log) >= 1 if n else True, *[AND(EQ(q[2], dt), EQ(q[3], a)) for q in log]), props=['C07', 'C06'])
+
+
+canary('handler remembers the last pair it served', BacktestDataHandler, 'get_asset_latest_bid_price',
+       'bid = ds.get_bid(dt, asset_symbol)', 'bid = self.__dict__.setdefault("_memo", {}).setdefault(id(ds), ds.get_bid(dt, asset_symbol))')(dh_stateless)
 canary('last source wins', BacktestDataHandler, 'get_asset_latest_bid_price', 'return bid\n            except', 'pass\n            except')(dh_latest)
 canary('mid not halved', BacktestDataHandler, 'get_asset_latest_mid_price', '(bid_ask[0] + bid_ask[1]) / 2.0', '(bid_ask[0] + bid_ask[1])')(dh_latest)
 
